@@ -9,7 +9,7 @@
 /* growing (buffered) mode: the buffer is linear and never filled to the brim, so the read index never wraps */
 #define WF_GROW(a) IMP((a)->grow_feat, (a)->feat_outidx + (a)->n_feat_frame < (a)->n_feat_alloc)
 #define AC_MOD(x, m) ((((x) % (m)) + (m)) % (m))
-#ifdef SSW_CBMC
+#if defined(SSW_CBMC) && !defined(ACMOD_MACROS_ONLY)
 int acmod_advance(acmod_t *acmod)
 __CPROVER_requires(__CPROVER_is_fresh(acmod, sizeof(*acmod)) && __CPROVER_is_fresh(acmod->mgau, sizeof(*acmod->mgau)))
 __CPROVER_requires(WF_RING(acmod) && WF_GROW(acmod) && acmod->output_frame < 0x3fffffff && acmod->n_feat_frame >= 1 && acmod->mgau->frame_idx >= 0 && acmod->mgau->frame_idx < 0x3fffffff)
@@ -18,10 +18,12 @@ __CPROVER_assigns(acmod->feat_outidx, acmod->n_feat_frame, acmod->output_frame, 
 __CPROVER_ensures(acmod->feat_outidx == (__CPROVER_old(acmod->feat_outidx) + 1) % acmod->n_feat_alloc)
 __CPROVER_ensures(acmod->n_feat_frame == __CPROVER_old(acmod->n_feat_frame) - 1)
 __CPROVER_ensures(acmod->output_frame == __CPROVER_old(acmod->output_frame) + 1 && __CPROVER_return_value == acmod->output_frame)
+__CPROVER_ensures(acmod->mgau->frame_idx == __CPROVER_old(acmod->mgau->frame_idx) + 1)
 __CPROVER_ensures(WF_RING(acmod) && WF_GROW(acmod))
 /* in growing mode the read index never wraps (so the buffer can be rewound) */
 __CPROVER_ensures(IMP(acmod->grow_feat, acmod->feat_outidx == __CPROVER_old(acmod->feat_outidx) + 1))
 ;
+#ifndef ACMOD_PUBLIC_ONLY
 static int calc_feat_idx(acmod_t *acmod, int frame_idx)
 __CPROVER_requires(__CPROVER_is_fresh(acmod, sizeof(*acmod)) && WF_RING(acmod) && acmod->output_frame <= 0x3fffffff && frame_idx <= 0x3fffffff && frame_idx >= -0x3fffffff)
 /* ring sizes up to 256 frames (the shipped default is 128), frame numbers up to 100000: a 32-bit symbolic modulus does not finish */
@@ -32,6 +34,7 @@ __CPROVER_ensures((__CPROVER_return_value == -1) == (frame_idx < 0 || acmod->out
 __CPROVER_ensures(IMP(__CPROVER_return_value != -1, 0 <= __CPROVER_return_value && __CPROVER_return_value < acmod->n_feat_alloc
                       && __CPROVER_return_value == AC_MOD(acmod->feat_outidx + frame_idx - acmod->output_frame, acmod->n_feat_alloc)))
 ;
+#endif
 int acmod_rewind(acmod_t *acmod)
 __CPROVER_requires(__CPROVER_is_fresh(acmod, sizeof(*acmod)) && __CPROVER_is_fresh(acmod->mgau, sizeof(*acmod->mgau)) && WF_RING(acmod) && acmod->output_frame <= 0x3fffffff)
 /* every caller rewinds with all frames consumed or in growing mode: the frames still queued plus the frames consumed fit */
@@ -44,6 +47,7 @@ __CPROVER_ensures(IMP(__CPROVER_old(acmod->output_frame) <= acmod->n_feat_alloc,
 __CPROVER_ensures(WF_RING(acmod))
 ;
 
+#ifndef ACMOD_PUBLIC_ONLY
 /* assumed: growing keeps the contents (feat_array_realloc / ckd_realloc) and sets the new size */
 void acmod_grow_feat_buf(acmod_t *acmod, int nfr)
 __CPROVER_requires(nfr >= acmod->n_feat_alloc && nfr <= 0x40000000)
@@ -80,5 +84,6 @@ __CPROVER_ensures(acmod->n_feat_frame >= __CPROVER_old(acmod->n_feat_frame) && a
 __CPROVER_ensures(IMP(__CPROVER_return_value >= 0, __CPROVER_return_value == __CPROVER_old(*inout_n_frames) - *inout_n_frames && 0 <= *inout_n_frames))
 __CPROVER_ensures(IMP(__CPROVER_return_value >= 0 && __CPROVER_old(acmod->state) == ACMOD_STARTED && !(0), acmod->state == ACMOD_PROCESSING || acmod->state == ACMOD_STARTED))
 ;
+#endif
 #endif
 #endif
